@@ -42,6 +42,8 @@ pub fn corpus(extras: bool, thorough: bool) -> Vec<G> {
         // by ?, *, | and followed by a reader of the position (the generator must rewind)
         "(\"a\" ~ x+ ~ \"b\"?)? ~ ANY*", "(\"a\" ~ \"b\"+ ~ x? | x) ~ ANY*", "(\"a\" ~ (x ~ \"b\" | \"b\") | ANY ~ x) ~ ANY?", "(\"a\" ~ (x ~ (\"b\" ~ x)* ~ \"a\" | \"a\") | x ~ \"b\") ~ ANY*",
         "(\"a\" ~ x* ~ \"b\")* ~ ANY*", "(x ~ \"b\"? ~ x)? ~ ANY*", "(\"a\" ~ (\"b\"? ~ x))* ~ ANY*", "(\"a\" ~ \"b\"* ~ x | \"a\" ~ \"b\") ~ ANY*", "!(\"a\" ~ x? ~ \"b\") ~ ANY ~ ANY*",
+        // every PEEK slice form where its direction and bounds are observable
+        "PUSH(x) ~ PUSH(\"b\") ~ PEEK[..] ~ EOI", "PUSH(x) ~ PUSH(\"b\") ~ (PEEK[0..] | PEEK_ALL) ~ ANY*", "PUSH(x) ~ PUSH(\"b\") ~ PEEK[..2] ~ x?", "PUSH(x) ~ PUSH(\"b\") ~ PEEK[-2..] ~ \"b\"?", "PUSH(x) ~ PUSH(\"b\") ~ PEEK[1..] ~ PEEK[..1] ~ ANY?", "PUSH(x) ~ PUSH(\"b\") ~ PEEK[..-1] ~ PEEK[-1..] ~ ANY?",
         // equal and zero bounds, the skipper shape under +, mixed-case insensitive literal
         "x{2,2} ~ \"a\"?", "x{0,2} ~ \"b\"?", "(!\"b\" ~ ANY)+ ~ \"b\"?", "^\"aB\" ~ x?",
     ];
@@ -141,6 +143,15 @@ pub fn corpus(extras: bool, thorough: bool) -> Vec<G> {
             g.push_str(&format!("r = {{ ({})* ~ EOI }}", chunk.iter().take(6).map(|n| format!("u_{n}")).collect::<Vec<_>>().join(" | ")));
             extra.push(G { text: g, alphabet: "a1\u{4e2d}\u{1f600} \u{feff}".into(), class: "unicode-names" });
         }
+    }
+    // grammar files: the text reaches the derive byte for byte (line breaks inside literals and comments)
+    for (text, alphabet) in [
+        ("r = { \"a\r\nb\" ~ x? }\r\nx = { \"a\" }\r\n", "ab\r\n"),
+        ("r = { \"a\rb\" | \"a\nb\" } // c\r\n x = @{ r ~ \"\t\" }", "ab\r\n\t"),
+        ("/// doc\r\nr = { (!\"\r\n\" ~ ANY)* ~ \"\r\n\"? }\r\n", "ab\r\n"),
+        ("r = {\r\n  \"a\" ~\r\n  \"b\"\r\n}\r\nWHITESPACE = _{ \"\r\" | \"\n\" }", "ab\r\n"),
+    ] {
+        extra.push(G { text: text.to_string(), alphabet: alphabet.to_string(), class: "grammar-files" });
     }
     // stack ops
     for body in ["PUSH(\"a\" | \"b\") ~ PUSH(ANY) ~ PEEK_ALL", "PUSH(\"a\") ~ PUSH(\"b\") ~ PEEK[0..1] ~ PEEK[-1..] ~ POP_ALL", "PUSH(ANY) ~ (DROP | \"x\") ~ EOI", "PUSH(\"a\")* ~ (POP ~ \"b\"?)*", "PUSH(\"a\") ~ (POP_ALL | \"a\" ~ PEEK_ALL)", "PUSH(\"b\") ~ PUSH(\"a\") ~ PEEK[..]? ~ ANY*"] {
